@@ -5,15 +5,17 @@ import OpacusLean.Model.RnnCells
 the DP layer for the exact structural channel) or `float` (binary64 hex; real tanh / logistic).
 Lists are `n x1 … xn`.  Requests:
 
-  `fwd <mode> <kind> <I> <H> <L> <bidir> <bias> <W> pad <batchFirst> <d0> <d1> <data> <init>`
-  `fwd <mode> <kind> <I> <H> <L> <bidir> <bias> <W> pack <batch_sizes> <sorted_idx> <unsorted_idx> <data> <init>`
-        kind: `tanh | relu | gru | lstm`; `<W>` all parameters flattened in `torch` `state_dict` order;
+  `fwd <mode> <cast> <kind> <I> <H> <L> <bidir> <bias> <W> pad <batchFirst> <d0> <d1> <data> <init>`
+  `fwd <mode> <cast> <kind> <I> <H> <L> <bidir> <bias> <W> pack <batch_sizes> <sorted_idx> <unsorted_idx> <data> <init>`
+        cast: `id | f32` – conversion of the packed path's final states into the `h_last` buffer (`f32`: as coded under
+        default dtype float32; finding C13:packed:state-dtype); kind: `tanh | relu | gru | lstm`; `<W>` all parameters flattened in `torch` `state_dict` order;
         index lists of length 0 mean `None`; `<init>` = `0` | `1 <h0>` | `1 <h0> <c0>` (lstm)
         reply: `ok <out> <h_n> [<c_n>]` (flattened, torch layout) | `err` (the model says: raises)
-  `spec <mode> <kind> <I> <H> <L> <bidir> <bias> <W> <x> <init>`   one sequence `[T, I]`, states `[L·P, H]`
+  `spec <mode> <cast> <kind> <I> <H> <L> <bidir> <bias> <W> <x> <init>`   one sequence `[T, I]`, states `[L·P, H]`
         reply: `ok <out> <h_n> [<c_n>]`
   `csl <batch_sizes>`                         reply: `ok <lens>` | `err`
   `bsz <lens>`                                reply: `ok <batch_sizes>`
+  `pack <B> <seq_1> … <seq_B>`                reply: `ok <data>` of `pack_padded_sequence` (integer scalars)
   `keys <L> <bidir> <bias>`                   reply: DP `state_dict` keys      (rendered, in order)
   `tkeys <L> <bidir> <bias>`                  reply: `torch.nn` keys
   `rename <L> <bidir> <bias>`                 reply: `old=new …`
@@ -26,14 +28,16 @@ open Opacus Opacus.Proto Opacus.Rnn
 structure Num (R : Type) where
   parse : String → Option R
   str : R → String
+  /-- round-trip through the default dtype float32 (`h_last = torch.zeros(B, H)` as coded) -/
+  f32 : R → R
 
 instance : Act Float :=
   ⟨Float.tanh, fun x => 1.0 / (1.0 + Float.exp (-x)), fun x => if x > 0.0 then x else 0.0⟩
 instance : Act Int :=
   ⟨fun x => max (-2) (min 2 x), fun x => max 0 (min 1 x), fun x => max 0 x⟩
 
-def numF : Num Float := ⟨float?, floatHex⟩
-def numI : Num Int := ⟨String.toInt?, toString⟩
+def numF : Num Float := ⟨float?, floatHex, fun x => x.toFloat32.toFloat⟩
+def numI : Num Int := ⟨String.toInt?, toString, id⟩
 
 abbrev Pm := StateT (List String) Option
 
@@ -91,12 +95,12 @@ inductive Inp (R : Type) where
   | pad (batchFirst : Bool) (x : List (List (List R)))
   | pack (bs : List Nat) (sorted unsorted : Option (List Nat)) (data : List (List R))
 
-def runModel {S : Type} (cfg : Cfg (List R) S) (bidir : Bool) (L : Nat)
+def runModel {S : Type} (cfg : Cfg (List R) S) (cast : S → S) (bidir : Bool) (L : Nat)
     (cells : List (List R → S → S)) (inp : Inp R) (init : Option (List (List S))) :
     Option (List (List R) × List (List S)) :=
   match inp with
   | .pad bf x => (forwardPadded cfg bidir L cells bf x init).map fun (o, hs) => (o.flatten, hs)
-  | .pack bs s u data => forwardPacked cfg bidir L cells data bs s u init
+  | .pack bs s u data => forwardPacked cfg cast bidir L cells data bs s u init
 
 def gatesOf : String → Option Nat
   | "tanh" => some 1 | "relu" => some 1 | "gru" => some 3 | "lstm" => some 4 | _ => none
@@ -107,7 +111,12 @@ def showRes (num : Num R) (lstm : Bool) (out : List (List R)) (hs : List (List (
   "ok " ++ outList num out.flatten ++ " " ++ outList num hn ++ (if lstm then " " ++ outList num cn else "")
 
 /-- header shared by `fwd` and `spec` -/
-def headP (num : Num R) : Pm (String × Nat × Nat × Nat × Bool × Bool × List (CellW R)) := do
+def headP (num : Num R) : Pm (String × Nat × Nat × Nat × Bool × Bool × List (CellW R) × (R → R)) := do
+  let castTok ← tok
+  let cast : R → R ← (match castTok with
+    | "id" => pure id
+    | "f32" => pure num.f32
+    | _ => failure : Pm (R → R))
   let kind ← tok
   let G ← ofOpt (gatesOf kind)
   let I ← natP
@@ -117,10 +126,10 @@ def headP (num : Num R) : Pm (String × Nat × Nat × Nat × Bool × Bool × Lis
   let bias ← boolP
   let w ← listP num.parse
   let cells ← ofOpt (carve I H G L bidir bias w)
-  pure (kind, I, H, L, bidir, bias, cells)
+  pure (kind, I, H, L, bidir, bias, cells, cast)
 
 def fwdP (num : Num R) : Pm String := do
-  let (kind, I, H, L, bidir, _bias, cws) ← headP num
+  let (kind, I, H, L, bidir, _bias, cws, cast) ← headP num
   let P := if bidir then 2 else 1
   let which ← tok
   let (inp, B) ← (match which with
@@ -148,19 +157,19 @@ def fwdP (num : Num R) : Pm String := do
   let c0s := rowsOf B (rowsOf H c0)
   if lstm then
     let init := if hasInit then some (List.zipWith List.zip h0s c0s) else none
-    match runModel (cfgHC H) bidir L (cws.map (lstmCell H)) inp init with
+    match runModel (cfgHC H) (fun hc => (hc.1.map cast, hc.2.map cast)) bidir L (cws.map (lstmCell H)) inp init with
     | some (o, hs) => pure (showRes num true o hs)
     | none => pure "err"
   else
     let init := if hasInit then some h0s else none
     let cells : List (List R → List R → List R) :=
       if kind = "gru" then cws.map (gruCell H) else cws.map (rnnCell (kind = "relu"))
-    match runModel (cfgH H) bidir L cells inp init with
+    match runModel (cfgH H) (·.map cast) bidir L cells inp init with
     | some (o, hs) => pure (showRes num false o (hs.map (·.map fun h => (h, []))))
     | none => pure "err"
 
 def specP (num : Num R) : Pm String := do
-  let (kind, I, H, L, bidir, _bias, cws) ← headP num
+  let (kind, I, H, L, bidir, _bias, cws, cast) ← headP num
   let P := if bidir then 2 else 1
   let x ← listP num.parse
   if x.length % I ≠ 0 then failure
@@ -172,14 +181,14 @@ def specP (num : Num R) : Pm String := do
   if hasInit ∧ (h0.length ≠ L * P * H ∨ (lstm ∧ c0.length ≠ L * P * H)) then failure
   if lstm then
     let init := if hasInit then some (List.zip (rowsOf H h0) (rowsOf H c0)) else none
-    match specForward (cfgHC H) bidir L (cws.map (lstmCell H)) init xs with
+    match specForward (cfgHC H) (fun hc => (hc.1.map cast, hc.2.map cast)) bidir L (cws.map (lstmCell H)) init xs with
     | some (o, hs) => pure (showRes num true o [hs])
     | none => pure "err"
   else
     let init := if hasInit then some (rowsOf H h0) else none
     let cells : List (List R → List R → List R) :=
       if kind = "gru" then cws.map (gruCell H) else cws.map (rnnCell (kind = "relu"))
-    match specForward (cfgH H) bidir L cells init xs with
+    match specForward (cfgH H) (·.map cast) bidir L cells init xs with
     | some (o, hs) => pure (showRes num false o [hs.map fun h => (h, [])])
     | none => pure "err"
 end
@@ -190,11 +199,16 @@ def namesP : String → Pm String
   | "csl" => do
     let bs ← listP String.toNat?
     match computeSeqLengths bs with
-    | some l => pure ("ok " ++ outList ⟨String.toNat?, toString⟩ l)
+    | some l => pure ("ok " ++ outList ⟨String.toNat?, toString, id⟩ l)
     | none => pure "err"
   | "bsz" => do
     let lens ← listP String.toNat?
-    pure ("ok " ++ outList ⟨String.toNat?, toString⟩ (batchSizes lens))
+    pure ("ok " ++ outList ⟨String.toNat?, toString, id⟩ (batchSizes lens))
+  | "pack" => do
+    -- `pack <B> <seq_1> … <seq_B>`: integer sequences (feature width 1), decreasing length
+    let B ← natP
+    let seqs ← (List.range B).mapM fun _ => listP String.toInt?
+    pure ("ok " ++ outList ⟨String.toInt?, toString, id⟩ (packSteps seqs).flatten)
   | "keys" => do
     let L ← natP; let b ← boolP; let bias ← boolP
     pure (" ".intercalate ((stateDictKeys L b bias).map PName.render))
